@@ -165,9 +165,9 @@ Fixpoint scan_digits (s : list N) (acc : N) (any : bool) : N * bool :=
 Definition scan_int (s : list N) : res (bool * N) :=
   let s1 := skip_space s in
   let '(neg, s2) := match s1 with
-                    | 45%N :: r => (true, r)
-                    | 43%N :: r => (false, r)
-                    | _ => (false, s1)
+                    | b :: r => if (b =? 45)%N then (true, r)
+                                else if (b =? 43)%N then (false, r) else (false, s1)
+                    | [] => (false, s1)
                     end in
   let '(m, any) := scan_digits s2 0%N false in
   if any then Ok (neg, m) else Err EInvalidArgument.
